@@ -600,3 +600,236 @@ pub fn read_tiny(bytes: &[u8], n: usize) -> Result<MapSet, String> {
     }
     Ok(m)
 }
+
+// ------------------------------------------------------------------------------------------------
+// Enigma: reference writer and reader (two namespaces)
+
+/// The top-level nodes of the Enigma layout: classes whose outer class (source name up to the last `$`) is not
+/// in the set. Returns (file name = target name or, lacking one, source name; source key).
+pub fn enigma_roots(m: &MapSet) -> Vec<(String, String)> {
+    let mut v = vec![];
+    for (k, c) in &m.classes {
+        let has_parent = inner_split(k).is_some_and(|(outer, _)| m.classes.contains_key(outer));
+        if !has_parent {
+            v.push((c.names[0].clone().unwrap_or_else(|| k.clone()), k.clone()));
+        }
+    }
+    v.sort();
+    v
+}
+
+/// Splits `a/b/Outer$Inner` into (`a/b/Outer`, `Inner`): the `$` must lie in the last `/`-section, with
+/// non-empty text on both sides.
+pub fn inner_split(k: &str) -> Option<(&str, &str)> {
+    let (outer, inner) = k.rsplit_once('$')?;
+    if outer.is_empty() || inner.is_empty() || outer.ends_with('/') || inner.contains('/') {
+        return None;
+    }
+    Some((outer, inner))
+}
+
+fn enigma_class(m: &MapSet, key: &str, depth: usize, out: &mut String) {
+    let c = &m.classes[key];
+    let ind = "\t".repeat(depth);
+    // a nested class is written with its simple names; a root with its full names
+    let (src, dst): (String, Option<String>) = if depth == 0 {
+        (key.to_string(), c.names[0].clone())
+    } else {
+        (inner_split(key).unwrap().1.to_string(), c.names[0].as_ref().map(|d| inner_split(d).map_or(d.clone(), |x| x.1.to_string())))
+    };
+    out.push_str(&format!("{ind}CLASS {src}"));
+    if let Some(d) = dst {
+        out.push(' ');
+        out.push_str(&d);
+    }
+    out.push('\n');
+    let doc = |out: &mut String, d: &Option<String>, ind: &str| {
+        if let Some(d) = d {
+            for l in d.split('\n') {
+                out.push_str(&format!("{ind}COMMENT {l}\n"));
+            }
+        }
+    };
+    doc(out, &c.doc, &format!("{ind}\t"));
+    for (fk, f) in &c.fields {
+        let (name, desc) = split_mkey(fk);
+        out.push_str(&format!("{ind}\tFIELD {name}"));
+        if let Some(d) = &f.names[0] {
+            out.push(' ');
+            out.push_str(d);
+        }
+        out.push_str(&format!(" {desc}\n"));
+        doc(out, &f.doc, &format!("{ind}\t\t"));
+    }
+    for (mk, me) in &c.methods {
+        let (name, desc) = split_mkey(mk);
+        out.push_str(&format!("{ind}\tMETHOD {name}"));
+        if let Some(d) = &me.names[0] {
+            out.push(' ');
+            out.push_str(d);
+        }
+        out.push_str(&format!(" {desc}\n"));
+        doc(out, &me.doc, &format!("{ind}\t\t"));
+        for (pi, p) in &me.params {
+            out.push_str(&format!("{ind}\t\tARG {pi} {}\n", p.names[1].as_deref().unwrap_or("?")));
+            doc(out, &p.doc, &format!("{ind}\t\t\t"));
+        }
+    }
+    let prefix = format!("{key}$");
+    for k in m.classes.keys() {
+        if let Some((outer, _)) = inner_split(k) {
+            if outer == key && k.starts_with(&prefix) {
+                enigma_class(m, k, depth + 1, out);
+            }
+        }
+    }
+}
+
+/// One Enigma text per root: (file name without extension, text).
+pub fn write_enigma_files(m: &MapSet) -> Vec<(String, String)> {
+    enigma_roots(m)
+        .into_iter()
+        .map(|(file, key)| {
+            let mut s = String::new();
+            enigma_class(m, &key, 0, &mut s);
+            (file, s)
+        })
+        .collect()
+}
+
+struct ELine {
+    no: usize,
+    indent: usize,
+    tag: String,
+    args: Vec<String>,
+}
+
+fn enigma_lines(bytes: &[u8]) -> Result<Vec<ELine>, String> {
+    const WS: [char; 6] = [' ', '\t', '\n', '\x0b', '\x0c', '\r'];
+    let mut v = vec![];
+    for (i, l) in split_lines(bytes)?.into_iter().enumerate() {
+        let indent = l.bytes().take_while(|b| *b == b'\t').count();
+        let l = &l[indent..];
+        let l = if l.starts_with("COMMENT") { l } else { l.split_once('#').map_or(l, |x| x.0).trim() };
+        if l.is_empty() {
+            continue;
+        }
+        let mut f = l.split(WS).map(|s| s.to_string());
+        let tag = f.next().unwrap();
+        v.push(ELine { no: i + 1, indent, tag, args: f.collect() });
+    }
+    Ok(v)
+}
+
+fn is_acc(s: &str) -> bool {
+    s.starts_with("ACC:")
+}
+
+/// Strict reference reader of one Enigma text, appending into `m` (two namespaces).
+pub fn read_enigma_into(bytes: &[u8], m: &mut MapSet) -> Result<(), String> {
+    let lines = enigma_lines(bytes)?;
+    let mut it = lines.iter().peekable();
+    fn comment(l: &ELine, slot: &mut Option<String>) {
+        let s = l.args.join(" ");
+        match slot {
+            Some(d) => {
+                d.push('\n');
+                d.push_str(&s);
+            }
+            None => *slot = Some(s),
+        }
+    }
+    fn member_args(l: &ELine) -> Result<(String, Option<String>, String), String> {
+        match l.args.as_slice() {
+            [s, d] => Ok((s.clone(), None, d.clone())),
+            [s, d, a] if is_acc(a) => Ok((s.clone(), None, d.clone())),
+            [s, t, d] => Ok((s.clone(), Some(t.clone()), d.clone())),
+            [s, t, d, _a] => Ok((s.clone(), Some(t.clone()), d.clone())),
+            _ => Err(format!("line {}: wrong number of arguments", l.no)),
+        }
+    }
+    fn class<'a>(it: &mut std::iter::Peekable<std::slice::Iter<'a, ELine>>, l: &ELine, depth: usize, parent: Option<(&str, &str)>, m: &mut MapSet) -> Result<(), String> {
+        let (src, dst) = match l.args.as_slice() {
+            [s] => (s.clone(), None),
+            [s, a] if is_acc(a) => (s.clone(), None),
+            [s, d] => (s.clone(), Some(d.clone())),
+            [s, d, _a] => (s.clone(), Some(d.clone())),
+            _ => return Err(format!("line {}: wrong number of arguments", l.no)),
+        };
+        let (src, dst) = match parent {
+            Some((ps, pd)) => (format!("{ps}${src}"), dst.map(|d| format!("{pd}${d}"))),
+            None => (src, dst),
+        };
+        if !valid_obj_class_name(&src) || dst.as_deref().is_some_and(|d| !valid_obj_class_name(d)) {
+            return Err(format!("line {}: invalid class name", l.no));
+        }
+        let pdst = dst.clone().unwrap_or_else(|| src.clone());
+        let mut c = ClassM { names: vec![dst], ..Default::default() };
+        while let Some(l) = it.peek().filter(|l| l.indent > depth) {
+            let l = *l;
+            it.next();
+            if l.indent != depth + 1 {
+                return Err(format!("line {}: indentation", l.no));
+            }
+            match l.tag.as_str() {
+                "CLASS" => class(it, l, depth + 1, Some((&src, &pdst)), m)?,
+                "COMMENT" => comment(l, &mut c.doc),
+                "FIELD" | "METHOD" => {
+                    let is_f = l.tag == "FIELD";
+                    let (s, t, d) = member_args(l)?;
+                    let valid: fn(&str) -> bool = if is_f { valid_unqualified } else { valid_method_name };
+                    if !valid(&s) || t.as_deref().is_some_and(|t| !valid(t)) {
+                        return Err(format!("line {}: invalid member name", l.no));
+                    }
+                    let mut me = MemberM { names: vec![t], ..Default::default() };
+                    while let Some(l) = it.peek().filter(|l| l.indent > depth + 1) {
+                        let l = *l;
+                        it.next();
+                        if l.indent != depth + 2 {
+                            return Err(format!("line {}: indentation", l.no));
+                        }
+                        match l.tag.as_str() {
+                            "COMMENT" => comment(l, &mut me.doc),
+                            "ARG" if !is_f => {
+                                let [idx, dst] = l.args.as_slice() else { return Err(format!("line {}: wrong number of arguments", l.no)) };
+                                let idx: usize = idx.parse().map_err(|_| format!("line {}: bad index", l.no))?;
+                                if !valid_unqualified(dst) {
+                                    return Err(format!("line {}: invalid parameter name", l.no));
+                                }
+                                let mut p = ParamM { names: vec![None, Some(dst.clone())], doc: None };
+                                while let Some(l) = it.peek().filter(|l| l.indent > depth + 2) {
+                                    let l = *l;
+                                    it.next();
+                                    if l.indent != depth + 3 || l.tag != "COMMENT" {
+                                        return Err(format!("line {}: expected COMMENT", l.no));
+                                    }
+                                    comment(l, &mut p.doc);
+                                }
+                                if me.params.insert(idx, p).is_some() {
+                                    return Err(format!("line {}: duplicate parameter", l.no));
+                                }
+                            }
+                            _ => return Err(format!("line {}: unknown tag in member", l.no)),
+                        }
+                    }
+                    let map = if is_f { &mut c.fields } else { &mut c.methods };
+                    if map.insert(mkey(&s, &d), me).is_some() {
+                        return Err(format!("line {}: duplicate member", l.no));
+                    }
+                }
+                _ => return Err(format!("line {}: unknown tag in class", l.no)),
+            }
+        }
+        if m.classes.insert(src, c).is_some() {
+            return Err(format!("line {}: duplicate class", l.no));
+        }
+        Ok(())
+    }
+    while let Some(l) = it.next() {
+        if l.indent != 0 || l.tag != "CLASS" {
+            return Err(format!("line {}: expected CLASS at top level", l.no));
+        }
+        class(&mut it, l, 0, None, m)?;
+    }
+    Ok(())
+}
